@@ -2,7 +2,7 @@ import WhatIs.Base.Bytes
 import WhatIs.Gen.Limits
 /-
   Model/ReadAll.lean — mirror of the way `Inspect` (internal/file/info.go) obtains its input:
-  `io.ReadAll(io.LimitReader(f, MaxReadSize))`.
+  `io.ReadAll(io.LimitReader(f, MaxReadSize+1))` cut back to `MaxReadSize` bytes.
   A source is a possibly ENDLESS byte stream (`src i = none` from the end of the stream on; never `none` for /dev/zero or
   a pipe that is never closed) read through an OS that may return SHORT reads (`chunk pos ≥ 1` bytes at a time).
   `LimitedReader.Read`: nothing once the allowance is used up, otherwise at most the allowance.
@@ -30,9 +30,19 @@ def readAll (src : Nat → Option Nat) (chunk : Nat → Nat) : Nat → Nat → N
       if got.isEmpty then some []                              -- … or end of input
       else (readAll src chunk fuel (pos + got.length) (rem - got.length)).map (got ++ ·)
 
-/-- what `Inspect` works on -/
-def inspectInput (src : Nat → Option Nat) (chunk : Nat → Nat) : Option Bytes :=
-  if Gen.inspectReadsThroughLimit then readAll src chunk (Gen.maxReadSize + 1) 0 Gen.maxReadSize
+/-- what `Inspect` reads: `io.ReadAll(io.LimitReader(f, MaxReadSize + extra))` — `extra` (regenerated: 1) is the one byte
+    more that tells whether the source holds more than is kept -/
+def inspectRead (src : Nat → Option Nat) (chunk : Nat → Nat) : Option Bytes :=
+  if Gen.inspectReadsThroughLimit then
+    readAll src chunk (Gen.maxReadSize + Gen.inspectReadExtra + 1) 0 (Gen.maxReadSize + Gen.inspectReadExtra)
   else none   -- an unlimited read of an endless stream does not return
+
+/-- what `Inspect` works on: the first `MaxReadSize` bytes of what was read (`data = data[:MaxReadSize]`) -/
+def inspectInput (src : Nat → Option Nat) (chunk : Nat → Nat) : Option Bytes :=
+  (inspectRead src chunk).map (·.take Gen.maxReadSize)
+
+/-- `available > MaxReadSize`: the whole-content sniffers are switched off -/
+def inspectTruncated (src : Nat → Option Nat) (chunk : Nat → Nat) : Option Bool :=
+  (inspectRead src chunk).map fun d => decide (Gen.maxReadSize < d.length)
 
 end WhatIs.ReadAll
